@@ -53,6 +53,7 @@ def _get_loaded(modname, cfg, patches=None):
 def _worker(args):
     modname, cfg, roots, max_paths, max_seconds, patches, timeout_ms = args
     t0 = time.time()
+    sys.setrecursionlimit(20000)
     try:
         mod, L = _get_loaded(modname, cfg, patches)
         eng = core.Engine(timeout_ms=timeout_ms)
